@@ -46,6 +46,10 @@ pub(crate) struct SnapshotTracker {
 	/// keep the sequence number registered until it is dropped itself.
 	snapshots: Arc<SkipSet<(u64, u64)>>,
 	next_id: Arc<AtomicU64>,
+	/// The store's visible sequence number, once attached: the horizon every
+	/// transaction begun from now on reads at. Compaction has to respect it like a
+	/// registered snapshot (see `horizon`).
+	visible_seq_num: Arc<std::sync::OnceLock<Arc<AtomicU64>>>,
 }
 
 impl Clone for SnapshotTracker {
@@ -53,6 +57,7 @@ impl Clone for SnapshotTracker {
 		Self {
 			snapshots: Arc::clone(&self.snapshots),
 			next_id: Arc::clone(&self.next_id),
+			visible_seq_num: Arc::clone(&self.visible_seq_num),
 		}
 	}
 }
@@ -75,6 +80,7 @@ impl SnapshotTracker {
 		Self {
 			snapshots: Arc::new(SkipSet::new()),
 			next_id: Arc::new(AtomicU64::new(0)),
+			visible_seq_num: Arc::new(std::sync::OnceLock::new()),
 		}
 	}
 
@@ -114,6 +120,20 @@ impl SnapshotTracker {
 	///
 	/// This is the primary method used by compaction. The returned vector
 	/// is sorted in ascending order.
+	/// Attaches the store's visible sequence number (once, at start-up).
+	pub(crate) fn attach_visible_seq_num(&self, visible_seq_num: Arc<AtomicU64>) {
+		let _ = self.visible_seq_num.set(visible_seq_num);
+	}
+
+	/// The current visibility horizon, if one is attached. A commit can sit in a
+	/// table before it is published (it waits behind an earlier commit that is
+	/// still being applied): versions above the horizon are the future of some
+	/// reader, and the newest version at or below it is what a transaction begun
+	/// right now reads - whether or not any snapshot is registered.
+	pub(crate) fn horizon(&self) -> Option<u64> {
+		self.visible_seq_num.get().map(|v| v.load(std::sync::atomic::Ordering::Acquire))
+	}
+
 	pub(crate) fn get_all_snapshots(&self) -> Vec<u64> {
 		let mut seqs: Vec<u64> = self.snapshots.iter().map(|entry| entry.0).collect();
 		seqs.dedup();
